@@ -131,6 +131,7 @@ def scn_sequence(kind, order):
 
 def obligations(tier, seed):
     obs = []
+    META["exhaustive"] = (tier == "thorough")   # K = 1..16 is enumerated completely only in the thorough tier
 
     def add(name, factory, args, clause):
         obs.append(scenario_ob("C05", name, "V", factory, args, clause=clause, funcs=FUNCS, seed=seed))
